@@ -62,7 +62,7 @@ int main(int argc, char** argv) {
       vmerge::cmd(tok, out);
     } else if (tok[0].compare(0, 4, "dom-") == 0) {
       vdom::cmd(tok, out);
-    } else if (tok[0] == "ser") {
+    } else if (tok[0] == "ser" || tok[0] == "serv") {
       cmd_ser(tok, out);
     } else if (tok[0].compare(0, 4, "thr-") == 0) {
       vthr::cmd(tok, out);
